@@ -545,6 +545,64 @@ def check_win(ck, prog):
     ck.floor("C15-WIN", 16)
 
 
+def check_scan(ck, prog):
+    """Every BCJ filter scans the positions p (multiples of its alignment) for which a whole instruction window fits:
+    p + W <= size.  The eight filters write that in three ways -- `size &= ~(A-1); for (i = 0; i < size; i += A)` (W = A),
+    `if (size < W) return 0; size -= W; for (i = 0; i <= size; ...)`, and x86's `limit = size - W; while (pos <= limit)`.
+    Each is brought to the form `p + K <= size` / `p + K < size` and K and the relation are compared with the window of
+    the architecture.  One position less (the last instruction of a file is left unconverted) still round-trips inside one
+    build, but the bytes differ from the reference filter, i.e. files of other implementations do not decode."""
+    ck.rule("C15-SCAN", "scan loops visit exactly the positions p with p + window <= size")
+    for arch in FILTERS:
+        fns = [arch + "_code"] if arch != "riscv" else ["riscv_encode", "riscv_decode"]
+        W = B.ARCH[arch]["window"]
+        for nm in fns:
+            f = prog.fn(nm, arch + ".c")
+            ck.saw_function(f)
+            mask = sub = lim = None
+            for b, i, e in f.iter_elems():
+                e_ = ex.deref(e)
+                for (l, r, op, n) in ex.writes(e):
+                    if ex.show(l) == "size" and op == "&=" and ex.const_val(r) is not None:
+                        mask = ((~ex.const_val(r)) & 0xFFFFFFFFFFFFFFFF) + 1
+                    if ex.show(l) == "size" and op == "-=" and ex.const_val(r) is not None:
+                        sub = ex.const_val(r)
+                if e_.get("k") == "decl" and e_.get("n") == "limit" and e_.get("init") is not None:
+                    i0 = ex.strip(e_["init"])
+                    if i0.get("k") == "bin" and i0["op"] == "-" and ex.show(i0["l"]) == "size" and ex.const_val(i0["r"]) is not None:
+                        lim = ex.const_val(i0["r"])
+            conds = []
+            for b in f.blocks.values():
+                if b.term and "cond" in b.term and b.term.get("kind") in ("ForStmt", "WhileStmt"):
+                    c = ex.strip(b.term["cond"])
+                    if c.get("k") == "bin" and c["op"] in ("<", "<=") and ex.show(c["r"]) in ("size", "limit") and \
+                            ex.strip(c["l"]).get("k") == "var":
+                        conds.append(c)
+            if len(conds) != 1:
+                raise AnalysisBroken("%s: expected one scan loop bounded by size/limit, found %d" % (nm, len(conds)))
+            c = conds[0]
+            # p REL (size - K)   with K from the adjustment;  a masked size with step A means p + A <= size0
+            if ex.show(c["r"]) == "limit":
+                if lim is None:
+                    raise AnalysisBroken("%s: `limit = size - K` not found" % nm)
+                K, rel = lim, c["op"]
+            elif sub is not None:
+                K, rel = sub, c["op"]
+            elif mask is not None:
+                K, rel = mask, ("<=" if c["op"] == "<" else "<+")      # i < floor_A(size)  <=>  i + A <= size
+            else:
+                raise AnalysisBroken("%s: no adjustment of size before the scan loop" % nm)
+            ok = rel == "<=" and K == W
+            ck.ob("C15-SCAN", nm, ok, common.where(f, c),
+                  "%s: scans p with p + %d <= size" % (nm, K) if ok else
+                  "%s(): the scan loop `%s` visits the positions with p + %d %s size, the filter is defined for p + %d <= size: %s"
+                  % (nm, ex.show(c), K, "<" if rel == "<" else rel, W,
+                     "an instruction in the last %d bytes is never converted, so the output differs from the reference "
+                     "filter (files made by other xz versions fail to decode)" % W if (rel == "<" or K > W) else
+                     "the loop reads beyond the data it was given"), key="SCAN:" + nm)
+    ck.floor("C15-SCAN", 9)
+
+
 def check_one(ck, prog):
     ck.rule("C15-ONE", "one-shot x86 functions start from the same state as the streaming init")
     ini = prog.fn("x86_coder_init", "x86.c")
@@ -975,6 +1033,7 @@ def run(ck):
     check_sym(ck, prog)
     check_opc(ck, prog)
     check_win(ck, prog)
+    check_scan(ck, prog)
     check_one(ck, prog)
     check_delta(ck, prog)
     check_stride(ck, prog)
